@@ -269,17 +269,6 @@ func leanCtorList(xs []string) string {
 }
 
 func mutationFacts(b *strings.Builder) {
-	group := strLit(constExpr("apis/execution/register.go", "GroupName"), "GroupName")
-	version := strLit(constExpr(gvInfoFile, "Version"), "Version")
-	kind := strLit(constExpr(gvInfoFile, "KindJobConfig"), "KindJobConfig")
-	checkAddGroupToLabel()
-	annSchedule := groupLabel(jcLabelsFile, "AnnotationKeyScheduleTime", group)
-	annHash := groupLabel(jcLabelsFile, "AnnotationKeyOptionSpecHash", group)
-	labelUID := groupLabel(jcLabelsFile, "LabelKeyJobConfigUID", group)
-	finalizer := groupPlusLit("apis/execution/finalizers.go", "DeleteDependentsFinalizer", group)
-
-	jobTypes := typedStringConsts("apis/execution/v1alpha1/job_types.go", "JobType")
-	strategies := typedStringConsts("apis/execution/v1alpha1/job_types.go", "ParallelCompletionStrategy")
 	val := func(m map[string]string, e ast.Expr, what string) string {
 		if e == nil {
 			return ""
@@ -290,50 +279,93 @@ func mutationFacts(b *strings.Builder) {
 		}
 		return v
 	}
-	defType := val(jobTypes, assignedRHS(mutFile, "Mutator", "MutateJob", "rj.Spec.Type"), "default job type")
-	defStrategy := val(strategies, assignedRHS(mutFile, "Mutator", "MutateParallelismSpec", "spec.CompletionStrategy"), "default completion strategy")
-	defRestart := val(restartPolicyValues, assignedRHS(mutFile, "Mutator", "MutatePodTemplateSpec", "spec.Spec.RestartPolicy"), "default restart policy")
-	var defMaxAttempts int64
-	if ce, ok := assignedRHS(mutFile, "Mutator", "MutateJobTemplateSpec", "spec.MaxAttempts").(*ast.CallExpr); ok && exprName(ce.Fun) == "Int64" && len(ce.Args) == 1 {
-		defMaxAttempts = intLit(ce.Args[0], "default maxAttempts")
-	} else {
-		failf("MutateJobTemplateSpec: spec.MaxAttempts is not assigned pointer.Int64(N)")
-	}
-	scheduledType, ok := jobTypes["JobTypeScheduled"]
-	if !ok {
-		failf("JobTypeScheduled not found")
-	}
 
-	steps := createJobSteps()
-	writes := configNameWrites()
-	wantWrites := []string{"Labels", "Annotations", "Finalizers", "OwnerReferences", "Labels[jobconfig.LabelKeyJobConfigUID]",
-		"Spec.Template", "Spec.StartPolicy", "Spec.StartPolicy.ConcurrencyPolicy", "Spec.ConfigName"}
-	if strings.Join(writes, ",") != strings.Join(wantWrites, ",") {
-		failf("evaluateConfigName: assignments to rj.* are %v, the model mirrors %v", writes, wantWrites)
-	}
+	var jobCreate, jobUpdate, jcCreate, jcUpdate []string
+	section("adm-patchers", func() {
+		jobCreate = patcherCalls(jobPatcherFile, "JobPatcher", "patchCreate")
+		jobUpdate = patcherCalls(jobPatcherFile, "JobPatcher", "patchUpdate")
+		jcCreate = patcherCalls(jcPatcherFile, "JobConfigPatcher", "patchCreate")
+		jcUpdate = patcherCalls(jcPatcherFile, "JobConfigPatcher", "patchUpdate")
+	})
+	var steps []string
+	section("adm-create-steps", func() { steps = createJobSteps() })
+	var writes []string
+	section("adm-config-writes", func() {
+		writes = configNameWrites()
+		wantWrites := []string{"Labels", "Annotations", "Finalizers", "OwnerReferences", "Labels[jobconfig.LabelKeyJobConfigUID]",
+			"Spec.Template", "Spec.StartPolicy", "Spec.StartPolicy.ConcurrencyPolicy", "Spec.ConfigName"}
+		if strings.Join(writes, ",") != strings.Join(wantWrites, ",") {
+			failf("evaluateConfigName: assignments to rj.* are %v, the model mirrors %v", writes, wantWrites)
+		}
+	})
+	finalizer, labelUID, annSchedule, annHash, kind, apiVersion, scheduledType := "", "", "", "", "", "", ""
+	section("adm-names", func() {
+		group := strLit(constExpr("apis/execution/register.go", "GroupName"), "GroupName")
+		version := strLit(constExpr(gvInfoFile, "Version"), "Version")
+		apiVersion = group + "/" + version
+		kind = strLit(constExpr(gvInfoFile, "KindJobConfig"), "KindJobConfig")
+		checkAddGroupToLabel()
+		annSchedule = groupLabel(jcLabelsFile, "AnnotationKeyScheduleTime", group)
+		annHash = groupLabel(jcLabelsFile, "AnnotationKeyOptionSpecHash", group)
+		labelUID = groupLabel(jcLabelsFile, "LabelKeyJobConfigUID", group)
+		finalizer = groupPlusLit("apis/execution/finalizers.go", "DeleteDependentsFinalizer", group)
+		jobTypes := typedStringConsts("apis/execution/v1alpha1/job_types.go", "JobType")
+		var ok bool
+		scheduledType, ok = jobTypes["JobTypeScheduled"]
+		if !ok {
+			failf("JobTypeScheduled not found")
+		}
+	})
+	defType, defStrategy, defRestart := "", "", ""
+	var defMaxAttempts int64
+	jobFlag, jcFlag := false, false
+	section("adm-defaults", func() {
+		jobTypes := typedStringConsts("apis/execution/v1alpha1/job_types.go", "JobType")
+		strategies := typedStringConsts("apis/execution/v1alpha1/job_types.go", "ParallelCompletionStrategy")
+		defType = val(jobTypes, assignedRHS(mutFile, "Mutator", "MutateJob", "rj.Spec.Type"), "default job type")
+		defStrategy = val(strategies, assignedRHS(mutFile, "Mutator", "MutateParallelismSpec", "spec.CompletionStrategy"), "default completion strategy")
+		defRestart = val(restartPolicyValues, assignedRHS(mutFile, "Mutator", "MutatePodTemplateSpec", "spec.Spec.RestartPolicy"), "default restart policy")
+		if ce, ok := assignedRHS(mutFile, "Mutator", "MutateJobTemplateSpec", "spec.MaxAttempts").(*ast.CallExpr); ok && exprName(ce.Fun) == "Int64" && len(ce.Args) == 1 {
+			defMaxAttempts = intLit(ce.Args[0], "default maxAttempts")
+		} else {
+			failf("MutateJobTemplateSpec: spec.MaxAttempts is not assigned pointer.Int64(N)")
+		}
+		jobFlag = templateFlag("MutateJob")
+		jcFlag = templateFlag("MutateJobConfig")
+	})
 
 	b.WriteString("\n/-! admission mutation (C16): strings are `List Char` literals -/\n")
 	b.WriteString("/-- methods of `mutation.Mutator` called by the patchers -/\n")
 	b.WriteString("inductive AdmCall where\n  | MutateCreateJob | MutateJob | MutateCreateJobConfig | MutateJobConfig | MutateUpdateJobConfig\nderiving DecidableEq, Repr\n")
 	b.WriteString("/-- phases of `Mutator.MutateCreateJob` -/\n")
 	b.WriteString("inductive AdmCreateStep where\n  | addFinalizer | evaluateConfigName | lookupOwner | evaluateOptionValues | mergeContext\nderiving DecidableEq, Repr\n")
-	fmt.Fprintf(b, "/-- `JobPatcher.patchCreate`: mutator methods merged, in source order -/\ndef admJobPatchCreate : List AdmCall := %s\n", leanCtorList(patcherCalls(jobPatcherFile, "JobPatcher", "patchCreate")))
-	fmt.Fprintf(b, "/-- `JobPatcher.patchUpdate` -/\ndef admJobPatchUpdate : List AdmCall := %s\n", leanCtorList(patcherCalls(jobPatcherFile, "JobPatcher", "patchUpdate")))
-	fmt.Fprintf(b, "/-- `JobConfigPatcher.patchCreate` -/\ndef admJobConfigPatchCreate : List AdmCall := %s\n", leanCtorList(patcherCalls(jcPatcherFile, "JobConfigPatcher", "patchCreate")))
-	fmt.Fprintf(b, "/-- `JobConfigPatcher.patchUpdate` -/\ndef admJobConfigPatchUpdate : List AdmCall := %s\n", leanCtorList(patcherCalls(jcPatcherFile, "JobConfigPatcher", "patchUpdate")))
-	fmt.Fprintf(b, "/-- top-level phases of `Mutator.MutateCreateJob`, in source order (a failed owner lookup returns early) -/\ndef admCreateJobSteps : List AdmCreateStep := %s\n", leanCtorList(steps))
-	fmt.Fprintf(b, "/-- assignments to `rj.*` in `evaluateConfigName`, in source order (the model mirrors exactly this list) -/\ndef admConfigNameWrites : List (List Char) := %s\n", leanCharsList(writes))
-	fmt.Fprintf(b, "def admFinalizer : List Char := %s\n", leanChars(finalizer))
-	fmt.Fprintf(b, "def admLabelUID : List Char := %s\n", leanChars(labelUID))
-	fmt.Fprintf(b, "def admAnnScheduleTime : List Char := %s\n", leanChars(annSchedule))
-	fmt.Fprintf(b, "def admAnnOptionSpecHash : List Char := %s\n", leanChars(annHash))
-	fmt.Fprintf(b, "def admKindJobConfig : List Char := %s\n", leanChars(kind))
-	fmt.Fprintf(b, "/-- `GroupVersion.String()` of the controller reference -/\ndef admAPIVersion : List Char := %s\n", leanChars(group+"/"+version))
-	fmt.Fprintf(b, "def admJobTypeScheduled : List Char := %s\n", leanChars(scheduledType))
-	fmt.Fprintf(b, "/-- `MutateJob`: `rj.Spec.Type` when empty -/\ndef admDefaultJobType : List Char := %s\n", leanChars(defType))
-	fmt.Fprintf(b, "/-- `MutateJobTemplateSpec`: `spec.MaxAttempts` when nil -/\ndef admDefaultMaxAttempts : Int := %d\n", defMaxAttempts)
-	fmt.Fprintf(b, "/-- `MutateParallelismSpec`: `CompletionStrategy` when empty -/\ndef admDefaultCompletionStrategy : List Char := %s\n", leanChars(defStrategy))
-	fmt.Fprintf(b, "/-- `MutatePodTemplateSpec`: `RestartPolicy` when empty -/\ndef admDefaultRestartPolicy : List Char := %s\n", leanChars(defRestart))
-	fmt.Fprintf(b, "/-- `mutateTaskTemplate` argument of `MutateJobTemplateSpec` in `MutateJob` / `MutateJobConfig` -/\n")
-	fmt.Fprintf(b, "def admJobMutatesTaskTemplate : Bool := %v\ndef admJobConfigMutatesTaskTemplate : Bool := %v\n", templateFlag("MutateJob"), templateFlag("MutateJobConfig"))
+	emit(b, "adm-patchers", func(b *strings.Builder) {
+		fmt.Fprintf(b, "/-- `JobPatcher.patchCreate`: mutator methods merged, in source order -/\ndef admJobPatchCreate : List AdmCall := %s\n", leanCtorList(jobCreate))
+		fmt.Fprintf(b, "/-- `JobPatcher.patchUpdate` -/\ndef admJobPatchUpdate : List AdmCall := %s\n", leanCtorList(jobUpdate))
+		fmt.Fprintf(b, "/-- `JobConfigPatcher.patchCreate` -/\ndef admJobConfigPatchCreate : List AdmCall := %s\n", leanCtorList(jcCreate))
+		fmt.Fprintf(b, "/-- `JobConfigPatcher.patchUpdate` -/\ndef admJobConfigPatchUpdate : List AdmCall := %s\n", leanCtorList(jcUpdate))
+	})
+	emit(b, "adm-create-steps", func(b *strings.Builder) {
+		fmt.Fprintf(b, "/-- top-level phases of `Mutator.MutateCreateJob`, in source order (a failed owner lookup returns early) -/\ndef admCreateJobSteps : List AdmCreateStep := %s\n", leanCtorList(steps))
+	})
+	emit(b, "adm-config-writes", func(b *strings.Builder) {
+		fmt.Fprintf(b, "/-- assignments to `rj.*` in `evaluateConfigName`, in source order (the model mirrors exactly this list) -/\ndef admConfigNameWrites : List (List Char) := %s\n", leanCharsList(writes))
+	})
+	emit(b, "adm-names", func(b *strings.Builder) {
+		fmt.Fprintf(b, "def admFinalizer : List Char := %s\n", leanChars(finalizer))
+		fmt.Fprintf(b, "def admLabelUID : List Char := %s\n", leanChars(labelUID))
+		fmt.Fprintf(b, "def admAnnScheduleTime : List Char := %s\n", leanChars(annSchedule))
+		fmt.Fprintf(b, "def admAnnOptionSpecHash : List Char := %s\n", leanChars(annHash))
+		fmt.Fprintf(b, "def admKindJobConfig : List Char := %s\n", leanChars(kind))
+		fmt.Fprintf(b, "/-- `GroupVersion.String()` of the controller reference -/\ndef admAPIVersion : List Char := %s\n", leanChars(apiVersion))
+		fmt.Fprintf(b, "def admJobTypeScheduled : List Char := %s\n", leanChars(scheduledType))
+	})
+	emit(b, "adm-defaults", func(b *strings.Builder) {
+		fmt.Fprintf(b, "/-- `MutateJob`: `rj.Spec.Type` when empty -/\ndef admDefaultJobType : List Char := %s\n", leanChars(defType))
+		fmt.Fprintf(b, "/-- `MutateJobTemplateSpec`: `spec.MaxAttempts` when nil -/\ndef admDefaultMaxAttempts : Int := %d\n", defMaxAttempts)
+		fmt.Fprintf(b, "/-- `MutateParallelismSpec`: `CompletionStrategy` when empty -/\ndef admDefaultCompletionStrategy : List Char := %s\n", leanChars(defStrategy))
+		fmt.Fprintf(b, "/-- `MutatePodTemplateSpec`: `RestartPolicy` when empty -/\ndef admDefaultRestartPolicy : List Char := %s\n", leanChars(defRestart))
+		fmt.Fprintf(b, "/-- `mutateTaskTemplate` argument of `MutateJobTemplateSpec` in `MutateJob` / `MutateJobConfig` -/\n")
+		fmt.Fprintf(b, "def admJobMutatesTaskTemplate : Bool := %v\ndef admJobConfigMutatesTaskTemplate : Bool := %v\n", jobFlag, jcFlag)
+	})
 }
